@@ -169,6 +169,33 @@ def _loop_anchor(b, sw, cache):
     return best
 
 
+EXTRA_GRD = None      # set by guards_of(): value-returning calls whose guard set is asked for by a rule
+
+
+def guards_of(bodies, S, callee_pat):
+    """[(atom name of the call, sorted list of the non-rejecting tests it is made under)] for the calls matching `callee_pat` in the function
+    (closures folded in): the `grd` computation, for a rule that freezes the exact condition of one particular call."""
+    global EXTRA_GRD
+    EXTRA_GRD = re.compile(callee_pat)
+    try:
+        at = atoms(bodies, S)
+    finally:
+        EXTRA_GRD = None
+    out = []
+    names = set()
+    for b in bodies:
+        for c in b.calls:
+            if re.search(callee_pat, c.res or c.callee) or re.search(callee_pat, c.callee):
+                n = atom_call_name(c, S)
+                if n:
+                    names.add(n)
+    for g in at["grd"]:
+        nm, _, gs = g.partition(" <= ")
+        if nm in names:
+            out.append((nm, json.loads(gs)))
+    return out
+
+
 def atoms(bodies, S=None):
     """{category: set(atom strings)} of one root function with its closures"""
     K.CANON_TRY = True
@@ -314,7 +341,7 @@ def _atoms(bodies, S):
                 dty = str(locs[c.dest[0]]) if c.dest and c.dest[0] < len(locs) else ""
                 is_ws = bool(re.match(r"^<?ckb_", c.callee) or (c.res or "").startswith("ckb_"))
                 proc = (dty in ("()", "!") or re.match(r"^(core::result::|std::result::)?Result<\(\)", dty)) if is_ws else bool(MUTATOR_STD.search(c.callee) or (c.res and MUTATOR_STD.search(c.res)))
-                if proc:
+                if proc or (EXTRA_GRD is not None and EXTRA_GRD.search(c.res or c.callee)):
                     targets.append((c.bb, name))
             # order of effects: procedure A is completed before procedure B is called on every path that calls B (A's block dominates B's).
             # Swapping two effects, or moving one across a branch / loop boundary / early return, loses the fact; moving BOTH into a helper
